@@ -42,6 +42,20 @@ type vf31Tx struct {
 	Kind string       `json:"kind"` // transfer (-> To), evmCall (-> ContractAddr), evmPara (-> Para), none (sender only)
 	S    vf31Who      `json:"s"`
 	R    *vf31Spelled `json:"r,omitempty"`
+	// evm kinds carry the account in the payload only; tx.To is free: "" the evm executor address, "acct" an ordinary
+	// unblocked account (ToAcct), "otherExec" the none executor's address
+	ToMode string       `json:"to_mode,omitempty"`
+	ToAcct *vf31Spelled `json:"to_acct,omitempty"`
+}
+
+func vf31EvmTo(sh vf31Tx) string {
+	switch sh.ToMode {
+	case "acct":
+		return sh.ToAcct.String()
+	case "otherExec":
+		return address.ExecAddress("none")
+	}
+	return address.ExecAddress("evm")
 }
 
 type vf31Case struct {
@@ -141,11 +155,11 @@ func vf31Build(sh vf31Tx) *types.Transaction {
 	case "evmCall":
 		tx.Execer = []byte("evm")
 		tx.Payload = types.Encode(&types.EVMContractAction4Chain33{GasLimit: 1, Para: []byte("calldata-not-20-bytes-long"), ContractAddr: r})
-		tx.To = address.ExecAddress("evm")
+		tx.To = vf31EvmTo(sh)
 	case "evmPara":
 		tx.Execer = []byte("evm")
 		tx.Payload = types.Encode(&types.EVMContractAction4Chain33{Amount: 1, GasLimit: 1, Para: sh.R.raw20(), ContractAddr: address.ExecAddress("evm")})
-		tx.To = address.ExecAddress("evm")
+		tx.To = vf31EvmTo(sh)
 	default:
 		tx.Execer = []byte("none")
 		tx.Payload = []byte(fmt.Sprintf("note-%d", tx.Nonce))
@@ -246,6 +260,17 @@ func vf31Run(t lib.TB, test string, c *vf31Case) {
 		return
 	}
 	lib.Class("touching")
+	for i, tc := range touch {
+		if sh := c.Txs[i]; tc && sh.ToMode != "" && sh.R != nil {
+			isB := false
+			for _, b := range c.Blocked {
+				isB = isB || b.vf31Who == sh.S
+			}
+			if !isB {
+				lib.Class("touch_payload_only_free_to")
+			}
+		}
+	}
 	if cached || replyOK {
 		if tailOnly && lib.Known(vf31DelayGroup) {
 			lib.ExcludedKnown(vf31DelayGroup)
@@ -286,6 +311,24 @@ func vf31GenCase(t *rapid.T) *vf31Case {
 				r = hit
 			}
 			sh.R = &vf31Spelled{vf31Who: r, Sp: rapid.IntRange(0, 5).Draw(t, "rSp")}
+			if sh.Kind != "transfer" {
+				sh.ToMode = rapid.SampledFrom([]string{"", "acct", "", "acct", "otherExec"}).Draw(t, "toMode")
+				if sh.ToMode == "acct" {
+					a := vf31GenWho(t, "toAcct")
+					for blockedAcct := true; blockedAcct; {
+						blockedAcct = false
+						for _, b := range c.Blocked {
+							blockedAcct = blockedAcct || b.vf31Who == a
+						}
+						if blockedAcct {
+							if a.Eth = !a.Eth; !a.Eth {
+								a.K = (a.K + 1) % vf31Keys
+							}
+						}
+					}
+					sh.ToAcct = &vf31Spelled{vf31Who: a, Sp: rapid.IntRange(0, 5).Draw(t, "toSp")}
+				}
+			}
 		}
 		if i == aim && (sh.R == nil || sh.R.vf31Who != hit) {
 			sh.S = hit
